@@ -3,8 +3,9 @@
 -/
 import Hv.Hdd
 import HvProofs.Hds
+import HvProofs.Overlay
 namespace Hv.C07
-open Hv
+open Hv Hv.Layers
 
 /-- **chain_walk_terminates** (also C11): the Parallels snapshot-chain walk never runs out
     of fuel: a chain longer than the number of shots must repeat a GUID, which is refused. -/
@@ -20,5 +21,220 @@ theorem hds_overlay (v : Hds.Hds) (pc : Nat → UInt8) (hwf : Hds.WF v) (hp : Hd
   obtain ⟨Lr, h1, h2, h3⟩ := Hds.read_spec v pc hwf hp off len
   have : Lr = len := by omega
   rw [h3, this]
+
+/-- the HDS specification with a parent is the layer "BAT entry ≠ 0" over the parent content -/
+theorem hds_guest_is_overlay (v : Hds.Hds) (pc : Nat → UInt8) (hp : v.parent.isSome) :
+    v.guest pc = v.layer.over pc := Hds.guest_eq_over v pc hp
+
+/-! ### VHDX `_iter_partial_runs` -/
+
+/-- **partialRuns_eq_rle**: for every bitmap byte string, every start bit `< 8` (also `≠ 0`
+    on bytes that are neither `0x00` nor `0xFF`) and every length, the model of
+    `_iter_partial_runs(bitmap, start_idx, length)` returns the run-length encoding of the bits
+    `[start, start+len)` (LSB-first), cut at the end of the bitmap when it is shorter. -/
+theorem partialRuns_eq_rle (bm : Bytes) (start len : Nat) (hs : start < 8) (hne : bm ≠ []) :
+    Vhdx.iterPartialRuns bm start len = .ok (rle (bits bm start (min len (8 * bm.length - start)))) :=
+  iterPartialRuns_eq bm start len hs hne
+
+/-- `rle` is the run-length encoding: expansion gives back the list, adjacent runs differ in
+    kind, every run has length ≥ 1 (these three properties determine the run list). -/
+theorem rle_is_rle (l : List Nat) : expand (rle l) = l ∧ Alt (rle l) ∧ ∀ r ∈ rle l, 1 ≤ r.2 :=
+  ⟨expand_rle l, rle_alt l, rle_pos l⟩
+
+/-- … and they do determine it: any run list with the three properties is `rle` of its expansion -/
+theorem rle_unique (runs : List (Nat × Nat)) (ha : Alt runs) (hp : ∀ r ∈ runs, 1 ≤ r.2) : runs = rle (expand runs) :=
+  Layers.rle_unique runs ha hp
+
+/-- the same without reference to `rle`: when the bitmap holds the requested bits, the runs
+    expand to exactly the bits `[start, start+len)`, alternate in kind and are non-empty -/
+theorem partialRuns_spec (bm : Bytes) (start len : Nat) (hs : start < 8) (hne : bm ≠ [])
+    (hfit : start + len ≤ 8 * bm.length) :
+    ∃ runs, Vhdx.iterPartialRuns bm start len = .ok runs ∧
+      expand runs = bits bm start len ∧ Alt runs ∧ ∀ r ∈ runs, 1 ≤ r.2 := by
+  refine ⟨_, partialRuns_eq_rle bm start len hs hne, ?_⟩
+  have : min len (8 * bm.length - start) = len := by omega
+  rw [this]
+  exact rle_is_rle _
+
+/-- **bitmap_fetch_covers**: the `(bit_idx + read_count + 7) // 8` bytes fetched at byte
+    `sector_in_chunk // 8` hold the bit of every requested sector `j < read_count`, at index
+    `bit_idx + j` of the fetched string (`bit_idx = sector_in_chunk % 8`), and that bit is bit
+    `sector_in_chunk + j` of the bitmap block. -/
+theorem bitmap_fetch_covers (g : Nat → UInt8) (base sic n j : Nat) (hj : j < n) :
+    (sic % 8 + j) / 8 < (sic % 8 + n + 8 - 1) / 8 ∧
+    bitAt (slice g (base + sic / 8) ((sic % 8 + n + 8 - 1) / 8)) (sic % 8 + j)
+      = bitOf (g (base + (sic + j) / 8)).toNat ((sic + j) % 8) := by
+  have h1 : (sic % 8 + j) / 8 < (sic % 8 + n + 8 - 1) / 8 := by omega
+  refine ⟨h1, ?_⟩
+  unfold bitAt
+  rw [Vhdx.slice_getD _ _ _ _ h1]
+  have e1 : base + sic / 8 + (sic % 8 + j) / 8 = base + (sic + j) / 8 := by omega
+  have e2 : (sic % 8 + j) % 8 = (sic + j) % 8 := by omega
+  rw [e1, e2]
+
+/-! ### differencing VHDX -/
+
+/-- **vhdx_diff_read_correct**: for a well-formed differencing image whose parent object's
+    `read_sectors` serves the parent content `pc`, `read_sectors` returns, sector by sector,
+    the child's data where the block is fully present or the sector's bitmap bit is set, the
+    parent's data where the block is not present or the bit is clear, zeros for the zero /
+    unmapped / undefined states — the pointwise specification `guestDiff`. Requests may start
+    anywhere in a block and span any number of blocks and bitmap bytes. -/
+theorem vhdx_diff_read_correct (v : Vhdx.Vhdx) (pc : Nat → UInt8) (hwf : Vhdx.WFD v) (hp : Vhdx.ParentOK v pc)
+    (sector count : Nat) (h : sector + count ≤ v.nSectors) :
+    v.readSectors count sector count
+      = .ok (slice (v.guestDiff pc) (sector * v.sectorSize) (count * v.sectorSize)) :=
+  Vhdx.readSectors_diff_correct v pc hwf hp count sector count (Nat.le_refl _) h
+
+/-- what `guestDiff` says, state by state (`b` = block of byte `o`) -/
+theorem vhdx_guestDiff_cases (v : Vhdx.Vhdx) (pc : Nat → UInt8) (o : Nat) :
+    let st := v.pbRaw (o / v.blockSize) % 8
+    (st = 6 → v.guestDiff pc o = v.fh.byte (v.pbRaw (o / v.blockSize) / Vhdx.MBs * Vhdx.MBs + o % v.blockSize)) ∧
+    (st = 7 → v.sectorBit o = 1 →
+      v.guestDiff pc o = v.fh.byte (v.pbRaw (o / v.blockSize) / Vhdx.MBs * Vhdx.MBs + o % v.blockSize)) ∧
+    (st = 7 → v.sectorBit o ≠ 1 → v.guestDiff pc o = pc o) ∧
+    (st = 0 → v.guestDiff pc o = pc o) ∧
+    (st = 1 ∨ st = 2 ∨ st = 3 → v.guestDiff pc o = 0) := by
+  simp only [Vhdx.Vhdx.guestDiff, Layer.over, Vhdx.Vhdx.layer]
+  refine ⟨?_, ?_, ?_, ?_, ?_⟩
+  · intro h; simp [h]
+  · intro h hb; simp [h, hb]
+  · intro h hb; simp [h, hb]
+  · intro h; simp [h]
+  · intro h
+    have h6 : ¬ v.pbRaw (o / v.blockSize) % 8 = 6 := by omega
+    have h7 : ¬ v.pbRaw (o / v.blockSize) % 8 = 7 := by omega
+    have h0 : ¬ v.pbRaw (o / v.blockSize) % 8 = 0 := by omega
+    simp [h6, h7, h0]
+
+/-- the byte interface `_read` (sector-aligned offsets, as the buffered stream issues them) -/
+theorem vhdx_diff_read_bytes (v : Vhdx.Vhdx) (pc : Nat → UInt8) (hwf : Vhdx.WFD v) (hp : Vhdx.ParentOK v pc)
+    (off len : Nat) (ho : off % v.sectorSize = 0) :
+    ∃ b, v.read off len = .ok b ∧
+      b.take (min len (v.size - off)) = slice (v.guestDiff pc) off (min len (v.size - off)) ∧
+      (len % v.sectorSize = 0 → off + len ≤ v.size → b = slice (v.guestDiff pc) off len) :=
+  Vhdx.read_prefix_of v _ hwf.ss_pos (Vhdx.diff_sectorReadsAs v pc hwf hp) off len ho
+
+theorem vhdx_diff_backendOK (v : Vhdx.Vhdx) (pc : Nat → UInt8) (hwf : Vhdx.WFD v) (hp : Vhdx.ParentOK v pc)
+    (align : Nat) (ha : align % v.sectorSize = 0) :
+    BackendOK v.size align v.read (v.guestDiff pc) :=
+  Vhdx.backendOK_of v _ hwf.ss_pos (Vhdx.diff_sectorReadsAs v pc hwf hp) align ha
+
+/-- the opened differencing *stream*, any history of operations, any buffer size that is a
+    multiple of the sector size -/
+theorem vhdx_diff_stream_correct (v : Vhdx.Vhdx) (pc : Nat → UInt8) (hwf : Vhdx.WFD v) (hp : Vhdx.ParentOK v pc)
+    (align : Nat) (ha : align % v.sectorSize = 0) (hpos : 0 < align) (ops : List Op) :
+    AS.run v.read (AS.init v.size align) ops = Spec.run (v.guestDiff pc) ⟨v.size, 0⟩ ops :=
+  AS.run_refines ops _ (AS.init_inv _ _ hpos) (vhdx_diff_backendOK v pc hwf hp align ha)
+
+theorem vhdx_wfdb_sound (v : Vhdx.Vhdx) (h : v.wfdb = true) : Vhdx.WFD v := Vhdx.wfdb_sound v h
+
+/-! ### chains -/
+
+/-- **chain_reads_as_overlay** (generic, by induction on the chain): if every element of a
+    chain turns a reader of the content below it into a reader of its own layer over that
+    content, then the chain built over a base reader reads as the overlay of the layers over
+    the base content. `Reads` is the format's reading contract (`SectorReadsAs …`, `ReadsAs …`). -/
+theorem chain_reads_as_overlay {R : Type} (Reads : R → (Nat → UInt8) → Prop) (base : R) (bc : Nat → UInt8)
+    (hb : Reads base bc) (ls : List (Layer × (R → R)))
+    (h : ∀ x ∈ ls, ∀ below pc, Reads below pc → Reads (x.2 below) (x.1.over pc)) :
+    Reads (chainReader base (ls.map (·.2))) (overlayOn (ls.map (·.1)) bc) :=
+  chain_overlay Reads base bc hb ls h
+
+/-- **vhdx_chain_reads_as_overlay**: a chain of opened VHDX objects of any depth (each
+    differencing image's parent is the next object) reads as: topmost layer that decides
+    the sector, down to the base image. -/
+theorem vhdx_chain_reads_as_overlay (vs : List Vhdx.Vhdx) (h : Vhdx.IsChain vs) (v : Vhdx.Vhdx)
+    (hv : vs.head? = some v) (sector count : Nat) (hin : sector + count ≤ v.nSectors) :
+    v.readSectors count sector count
+      = .ok (slice (overlay (Vhdx.chainLayers vs)) (sector * v.sectorSize) (count * v.sectorSize)) :=
+  Vhdx.chain_reads vs h v hv sector count hin
+
+/-- the executable chain check the driver evaluates on every generated chain is sound -/
+theorem vhdx_chainWfb_sound (vs : List Vhdx.Vhdx) (h : Vhdx.chainWfb vs = true) (hl : Vhdx.Linked vs) :
+    Vhdx.IsChain vs := Vhdx.chainWfb_sound vs h hl
+
+/-! ### QCOW2 backing, VDI parent, VMDK delta -/
+
+/-- **qcow2_backing_short**: an unallocated run (sub-cluster types `UNALLOCATED_PLAIN`,
+    `UNALLOCATED_ALLOC`) over a backing handle of `bsz` bytes returns the backing bytes and,
+    beyond the end of a backing file shorter than the overlay, zeros. -/
+theorem qcow2_backing_short (q : Qcow2.QCow2) (r : Qcow2.Run) (bc : Nat → UInt8) (bsz : Nat)
+    (hb : Qcow2.BackingOK q bc bsz) (ht : r.type = 0 ∨ r.type = 1) :
+    q.runData r = .ok (slice (padTo bc bsz) r.readOffset r.count) :=
+  Qcow2.runData_unallocated q r bc bsz hb ht
+
+/-- no backing handle (no backing file, or the `ALLOW_NO_BACKING_FILE` opt-out): zeros -/
+theorem qcow2_no_backing_zeros (q : Qcow2.QCow2) (r : Qcow2.Run) (hb : q.backing = none) (ht : r.type = 0 ∨ r.type = 1) :
+    q.runData r = .ok (zeros r.count) :=
+  Qcow2.runData_unallocated_nobacking q r hb ht
+
+theorem qcow2_unallocated_types_spec :
+    Extracted.qcow2.UNALLOCATED_SUBCLUSTER_TYPES = [0, 1] ∧ Extracted.qcow2.ZERO_SUBCLUSTER_TYPES = [2, 3] := by decide
+
+/-- the VDI specification with a parent is the layer "map entry ≠ −1" over the parent content -/
+theorem vdi_guest_is_overlay (v : Vdi.Vdi) (pc : Nat → UInt8) (hp : v.parent.isSome) :
+    Vdi.guest v pc = (Vdi.layer v).over pc := Vdi.guest_eq_over v pc hp
+
+/-- **vdi_parent_fallthrough**: a request over unallocated blocks of a child with a parent
+    returns the parent's bytes at the same offsets -/
+theorem vdi_parent_fallthrough (v : Vdi.Vdi) (pc : Nat → UInt8) (hwf : Vdi.WF v) (hp : Vdi.ParentOK v pc)
+    (hpar : v.parent.isSome) (off len : Nat) (h : off + len ≤ v.size)
+    (hun : ∀ o, off ≤ o → o < off + len → v.map[o / v.blockSize]? = some (-1)) :
+    Vdi.read v off len = .ok (slice pc off len) := by
+  rw [Vdi.read_correct v pc hwf hp]
+  have : min len (v.size - off) = len := by omega
+  rw [this]
+  apply congrArg Except.ok
+  apply slice_congr
+  intro i hi
+  simp [Vdi.guest, hun (off + i) (by omega) (by omega), hpar]
+
+/-- the VMDK sparse-extent specification with a parent is the layer "grain entry ≠ 0" over
+    the parent content at the extent's absolute position `sector_offset * 512` -/
+theorem vmdk_guest_is_overlay (v : Vmdk.Sparse) (pc : Nat → UInt8) (hp : v.parent.isSome) :
+    v.guest pc = v.layer.over (fun o => pc (v.sectorOffset * 512 + o)) := Vmdk.guest_eq_over v pc hp
+
+/-- **vmdk_delta_parent_sector**: a request (absolute sectors, as `VMDK.read_sectors` passes
+    them) whose grains are all unallocated in the delta extent reads the parent at the same
+    absolute sector, `sector_offset + relative sector`. -/
+theorem vmdk_delta_parent_sector (v : Vmdk.Sparse) (pc : Nat → UInt8) (hwf : Vmdk.WF v) (hp : Vmdk.ParentOK v pc)
+    (hpar : v.parent.isSome) (sector count : Nat) (hs : v.sectorOffset ≤ sector)
+    (hin : sector - v.sectorOffset + count ≤ v.capacity)
+    (hun : ∀ s, sector - v.sectorOffset ≤ s → s < sector - v.sectorOffset + count →
+      v.specGrain (s / v.grainSize) = 0) :
+    v.readSectors sector count = .ok (slice pc (sector * 512) (count * 512)) :=
+  Vmdk.delta_parent_sector v pc hwf hp hpar sector count hs hin hun
+
+/-- a delta extent over any parent: `read_sectors` = the overlay (from the C02 proof) -/
+theorem vmdk_delta_read_correct (v : Vmdk.Sparse) (pc : Nat → UInt8) (hwf : Vmdk.WF v) (hp : Vmdk.ParentOK v pc)
+    (hpar : v.parent.isSome) (sector count : Nat) (hs : v.sectorOffset ≤ sector)
+    (hin : sector - v.sectorOffset + count ≤ v.capacity) :
+    v.readSectors sector count
+      = .ok (slice (v.layer.over (fun o => pc (v.sectorOffset * 512 + o))) ((sector - v.sectorOffset) * 512) (count * 512)) := by
+  rw [← vmdk_guest_is_overlay v pc hpar]
+  exact Vmdk.sparse_readSectors_correct v pc hwf hp sector count hs hin
+
+/-! ### non-vacuity: a concrete differencing image (2 blocks of 2 sectors of 4 bytes, chunk
+    ratio 2: block 0 partially present with bitmap `0b10`, block 1 not present) over a parent
+    satisfies `WFD`, and a read across both blocks evaluates to child / parent bytes as specified -/
+
+def exBat : Bytes := [0x07, 0x00, 0x10, 0, 0, 0, 0, 0,   0, 0, 0, 0, 0, 0, 0, 0,   0x06, 0x00, 0x20, 0, 0, 0, 0, 0]
+def exFile : File := ⟨3 * 2 ^ 20, fun i =>
+  if i < 24 then exBat.getD i 0
+  else if i = 2 * 2 ^ 20 then 0x02
+  else if 2 ^ 20 ≤ i ∧ i < 2 ^ 20 + 8 then UInt8.ofNat (100 + (i - 2 ^ 20))
+  else 0⟩
+def exParentContent : Nat → UInt8 := fun i => UInt8.ofNat (200 + i)
+def exDiff : Vhdx.Vhdx :=
+  { fh := exFile, size := 16, blockSize := 8, sectorSize := 4, hasParent := true, batOffset := 0, spb := 2,
+    chunkRatio := 2, entryCount := 3, diskId := [], locator := [],
+    parent := some (fun sector count => .ok (slice exParentContent (sector * 4) (count * 4))) }
+
+example : Vhdx.WFD exDiff := vhdx_wfdb_sound exDiff (by decide)
+example : Vhdx.ParentOK exDiff exParentContent := ⟨_, rfl, fun _ _ _ => rfl⟩
+example : exDiff.readSectors 4 0 4 = .ok [200, 201, 202, 203, 104, 105, 106, 107, 208, 209, 210, 211, 212, 213, 214, 215] := by
+  decide
+example : Vhdx.iterPartialRuns [0xF0, 0x0F, 0xFF] 3 18 = .ok [(0, 1), (1, 8), (0, 4), (1, 5)] := by decide
 
 end Hv.C07
